@@ -19,6 +19,15 @@ import (
 )
 
 func init() {
+	mutant(&Mutant{Name: "c17-zero-angle-loses-unit", Property: "C17", File: "css/table.go",
+		Old: "\t\"vmax\": true,\n}", New: "\t\"vmax\": true,\n\t\"deg\":  true,\n}",
+		Rule: "R17.units", Construct: "css.optionalZeroDimension[deg]"})
+	mutant(&Mutant{Name: "c17-embed-loses-object-trait", Property: "C17", File: "html/table.go",
+		Old: "\tEmbed:      objectTag,", New: "\tEmbed:      normalTag,",
+		Rule: "R17.htmltraits", Construct: "objectTag ⊇ embed"})
+	mutant(&Mutant{Name: "c17-data-attributes-borrow-traits", Property: "C17", File: "html/buffer.go",
+		Old: "\t\tt.Traits = attrMap[t.Hash]\n", New: "\t\tt.Traits = attrMap[t.Hash]\n\t\tif t.Hash == 0 && 5 < len(t.Text) && t.Text[4] == '-' {\n\t\t\tt.Traits = attrMap[ToHash(t.Text[5:])]\n\t\t}\n",
+		Rule: "R17.tokentraits", Construct: ""})
 	register(&Property{
 		ID:    "C17",
 		Level: "proof",
@@ -173,10 +182,11 @@ func runC17(c *Ctx) {
 	// that used it before attributes a table entry to a token that has none (text, svg, math)
 	if pk := c.P.Pkg("html"); pk != nil {
 		c.alsoUnder(map[string]string{"R03.5": "R17.tokentraits"}, func(construct string) bool {
-			return strings.Contains(construct, "TokenBuffer.read/") || strings.HasPrefix(construct, "floor/token fields")
+			return strings.Contains(construct, "TokenBuffer.read/") || strings.HasPrefix(construct, "floor/token fields") || strings.HasPrefix(construct, "floor/assignments of Traits")
 		}, func() {
-			c.R.Rule("R03.5", "html.TokenBuffer.read assigns every field of the reused token slot on every path (clause (f) of the token buffer rule, see C03): Traits, Hash and AttrVal of a text, svg or math token are those the function computes for it — zero — and not those of the tag or attribute that used the slot before")
+			c.R.Rule("R03.5", "html.TokenBuffer.read assigns every field of the reused token slot on every path (clause (f) of the token buffer rule, see C03): Traits, Hash and AttrVal of a text, svg or math token are those the function computes for it — zero — and not those of the tag or attribute that used the slot before; and the Traits it assigns are attrMap[t.Hash] / tagMap[t.Hash] with t.Hash = ToHash(t.Text): the entry of the token's own name, not of a name derived from it")
 			c.tokenSlotFullyRewritten("R03.5", pk)
+			c.tokenTraitsFromOwnEntry("R03.5", pk)
 		})
 	}
 }
@@ -439,13 +449,13 @@ func (c *Ctx) ruleColors() {
 
 func (c *Ctx) ruleUnits() {
 	const rule = "R17.units"
-	c.R.Rule(rule, "css.optionalZeroDimension: every unit with value true is a CSS <length> or <angle> unit (CSS Values 4 §6, §7.1); time, frequency, resolution, flex and percentage units must not be listed")
+	c.R.Rule(rule, "css.optionalZeroDimension: every unit with value true is a CSS <length> unit (CSS Values 4 §6); time, frequency, resolution, flex and percentage units must not be listed, nor angle units — a bare 0 is an <angle> only as argument of the legacy transform and gradient functions (§7.1), and the table is consulted outside functions only: `rotate:0deg` → `rotate:0` is not a valid declaration")
 	if m, _ := c.tableMap(rule, "css", "optionalZeroDimension"); m != nil {
 		for _, e := range m.Entries {
 			k, _ := e.Key.(string)
 			v, _ := e.Value.(bool)
 			construct := "css.optionalZeroDimension[" + k + "]"
-			c.R.Check(!v || ref.CSSLengthAngleUnits[k], rule, construct, c.pos(e.KeyX), "length/angle unit", fmt.Sprintf("%q is not a length or angle unit: 0%s would become 0, which is invalid or means something else", k, k))
+			c.R.Check(!v || ref.CSSLengthUnits[k], rule, construct, c.pos(e.KeyX), "length unit", fmt.Sprintf("%q is not a length unit: 0%s would become 0, which is invalid or means something else", k, k))
 		}
 		c.R.Floor(rule, "optionalZeroDimension entries", len(m.Entries), 10)
 	}
@@ -463,7 +473,7 @@ func (c *Ctx) traitBit(rule string, pk *packages.Package, name string) int64 {
 
 func (c *Ctx) ruleHTMLTraits() {
 	const rule = "R17.htmltraits"
-	c.R.Rule(rule, "html.tagMap / html.attrMap trait bits against the HTML Living Standard: rawTag ⊆ raw-text, escapable-raw-text and generic-raw-text elements ∪ {svg, math}; blockTag ⊆ elements rendered as block / list-item / table part / line break or not rendered; omitPTag ⊆ elements whose start tag implies </p>; keepPTag ⊇ {a audio del ins map noscript video}; booleanAttr ⊆ boolean attributes; urlAttr ⊆ URL-valued attributes; trimAttr ∩ attributes whose white space is significant (text, regular expressions, code) = ∅; every raw text element of the lexer in which a parser decodes no references has rawTag")
+	c.R.Rule(rule, "html.tagMap / html.attrMap trait bits against the HTML Living Standard: rawTag ⊆ raw-text, escapable-raw-text and generic-raw-text elements ∪ {svg, math}; blockTag ⊆ elements rendered as block / list-item / table part / line break or not rendered; omitPTag ⊆ elements whose start tag implies </p>; keepPTag ⊇ {a audio del ins map noscript video}; objectTag ⊇ the elements rendered as an atomic inline box (audio button canvas embed iframe img input meter object progress select svg textarea video); booleanAttr ⊆ boolean attributes; urlAttr ⊆ URL-valued attributes; trimAttr ∩ attributes whose white space is significant (text, regular expressions, code) = ∅; every raw text element of the lexer in which a parser decodes no references has rawTag")
 	h := c.loadHash(rule, "html")
 	m, pk := c.tableMap(rule, "html", "tagMap")
 	if m != nil && h != nil {
@@ -492,6 +502,18 @@ func (c *Ctx) ruleHTMLTraits() {
 			} else {
 				c.R.OK(rule, construct, c.pos(e.KeyX), fmt.Sprintf("%s traits=%#x", name, tv))
 			}
+		}
+		object := c.traitBit(rule, pk, "objectTag")
+		objSeen := map[string]bool{}
+		for _, e := range m.Entries {
+			kv, _ := e.Key.(int64)
+			tv, _ := e.Value.(int64)
+			if name, ok := h.decode(kv); ok && tv&object != 0 {
+				objSeen[name] = true
+			}
+		}
+		for _, name := range sortedKeys(ref.HTMLAtomicInline) {
+			c.R.Check(objSeen[name], rule, "html.tagMap/objectTag ⊇ "+name, "-", "has objectTag", "<"+name+"> is rendered as an atomic box in the inline flow, but lacks objectTag: the white space after it is taken for a repetition of the white space in front of it and dropped (`x <"+name+"> y` → `x <"+name+">y`), which glues the following text to the box")
 		}
 		for _, name := range sortedKeys(ref.HTMLPKeepParents) {
 			c.R.Check(keepSeen[name], rule, "html.tagMap/keepPTag ⊇ "+name, "-", "has keepPTag", "</p> followed by </"+name+"> may not be omitted (HTML optional tags), but "+name+" lacks keepPTag")
